@@ -31,7 +31,11 @@ func runC05(cx *ctx) {
 	// the chunk counter beyond its lowest byte: 257 chunks (16 MiB), byte-exact against the Lean reference
 	{
 		rb := r.Fork()
-		cx.ru.Do(func() *h.Case { return bigCounterCase(rb, 257) })
+		cx.ru.Do(func() *h.Case {
+			c := bigCounterCase(rb, 257)
+			c.SpecIsOracle = "the independent reference implementation does not reproduce the payload the library writes (byte-for-byte comparison by SHA-256)"
+			return c
+		})
 	}
 	// (a) Go writes, Lean reproduces; (b) each decrypts the other's file
 	for kind := 0; kind < 4; kind++ {
@@ -42,7 +46,9 @@ func runC05(cx *ctx) {
 			cx.ru.Do(func() *h.Case {
 				p := mkParty(rr, kind)
 				pt := rr.Bytes(n)
-				return fencCase("enc-"+p.label, rr, []*party{p}, pt, segment(rr, pt))
+				c := fencCase("enc-"+p.label, rr, []*party{p}, pt, segment(rr, pt))
+				c.SpecIsOracle = "the independent reference implementation does not reproduce the file the library writes from the same random values"
+				return c
 			})
 			rr2 := r.Fork()
 			cx.ru.Do(func() *h.Case {
@@ -106,7 +112,9 @@ func runC05(cx *ctx) {
 				ps = append(ps, mkParty(rr, rr.Intn(3)))
 			}
 			pt := rr.Bytes(rr.Intn(300))
-			return fencCase("enc-mixed", rr, ps, pt, segment(rr, pt))
+			c := fencCase("enc-mixed", rr, ps, pt, segment(rr, pt))
+			c.SpecIsOracle = "the independent reference implementation does not reproduce the file the library writes from the same random values"
+			return c
 		})
 	}
 }
